@@ -88,13 +88,14 @@ func (c *Cache) addEntry(sname types.PrincipalName, a types.Authenticator) {
 	c.entries[clientKey(a)] = ce
 }
 
-// ClearOldEntries clears entries from the Cache that are older than the duration provided.
+// ClearOldEntries clears entries from the Cache whose client time is older than the duration provided.
+// An entry has to be kept for as long as its authenticator could still pass the clock skew check.
 func (c *Cache) ClearOldEntries(d time.Duration) {
 	c.mux.Lock()
 	defer c.mux.Unlock()
 	for ke, ce := range c.entries {
 		for k, e := range ce.replayMap {
-			if time.Now().UTC().Sub(e.presentedTime) > d {
+			if time.Now().UTC().Sub(e.cTime) > d {
 				delete(ce.replayMap, k)
 			}
 		}
